@@ -100,7 +100,10 @@ Class(e, w, r) ==
 ZeroShaped(e, w) ==
     IF e.op = "Alloc" THEN e.args[1] = 0 \/ e.args[3] = 0
     ELSE IF e.op = "ChannelLength" THEN e.args[2] = 0
-    ELSE \E v \in Operated(e) : v \in 1..Len(w.views) /\ (w.views[v].ch = 0 \/ w.views[v].cap = 0)
+    ELSE \E v \in Operated(e) : v \in 1..Len(w.views) /\
+            \/ w.views[v].ch = 0 \/ w.views[v].cap = 0
+            \* C20, last sentence: reads, writes and conversions on ANY zero-length buffer transfer nothing
+            \/ (e.op \in {"Read", "Write", "ReadStriped", "WriteStriped", "Convert", "ConvertBig"} /\ w.views[v].len = 0)
 ArgsValid(e, w) == \A v \in Operated(e) : v \in 1..Len(w.views)
 
 Init == world = EmptyWorld /\ l = 1 /\ tid = 0 /\ dead = FALSE /\ nbad = 0 /\ nunspec = 0 /\ njudged = 0
